@@ -256,6 +256,7 @@ class NetworkService(ModelElement):
                 owner = self.topo.get_owner_node(interface)
                 if owner is None:
                     print(f'In validating service {self.name} interface {interface=} has no owner')
+                    continue
                 sites.add(owner.site)
 
             if len(sites) > NetworkServiceSliver.ServiceConstraints[nstype].num_sites:
